@@ -243,7 +243,12 @@ def worker_main(modname, tier, seed, w, nw, examples, outpath, known_sigs):
         acc = Acc()
         unknown = set()
 
+        curpath = outpath + '.cur'
+
         def handle(case):
+            # remembered so that a crash of the interpreter itself can be attributed to a case
+            with open(curpath, 'w') as f:
+                f.write(canon(case))
             out = run_case(mod, case)
             acc.add(case, out)
             for f in out.failures:
@@ -521,6 +526,7 @@ def main(modname, argv):
     limit = budget.get('wall_limit', 3600 if args.tier == 'quick' else 6 * 3600)
     deadline = time.time() + limit
     harness_errors = []
+    crashes = []
     for p, outp in procs:
         p.join(max(1, deadline - time.time()))
         if p.is_alive():
@@ -528,6 +534,15 @@ def main(modname, argv):
             harness_errors.append('worker timed out after %ds' % limit)
             continue
         if not os.path.exists(outp):
+            if p.exitcode is not None and p.exitcode < 0 and os.path.exists(outp + '.cur'):
+                # the interpreter crashed (signal) while executing a case: that is a finding, not a
+                # harness error; the case is kept as the replay
+                with open(outp + '.cur') as f:
+                    case = json.loads(f.read())
+                sig = (prop, 'execute', 'interpreter-crash', 'signal %d' % -p.exitcode)
+                path = write_replay(prop, sig, case, 'worker process died with signal %d while executing this case' % -p.exitcode)
+                crashes.append((sig, path, 'the Python process died with signal %d while executing this case' % -p.exitcode))
+                continue
             harness_errors.append('worker died without result (exit %s)' % p.exitcode)
             continue
         with open(outp, 'rb') as f:
@@ -543,6 +558,7 @@ def main(modname, argv):
             print(h)
         return 2
 
+    violations.extend(crashes)
     # 3. classify, shrink
     known_hits = 0
     ddbudget = 150 if args.tier == 'quick' else 600
